@@ -58,3 +58,41 @@ SPEC("pane.field", "FieldSpec.make_field",
      raises=(lambda self, name, in_rename, out_rename, exc: exc_is(exc, TypeError) or exc_is(exc, ValueError), ["C15", "C20"]))
 
 
+
+
+# ---------------------------------------------------------------------------------------------
+# C20: field renaming yields canonical, reversible names.   BOUNDED: these clauses are string-level and are decided only
+# by exhaustive run-time evaluation over a finite domain of names (never counted as proved).
+def is_snake_name(name):
+    ws = name.split('_')
+    return all(len(w) >= 2 and w.isalpha() and w.islower() for w in ws)
+
+
+def canonical(name, style):
+    ws = name.split('_')
+    caps = [w[0].upper() + w[1:] for w in ws]
+    return {'snake': '_'.join(ws), 'scream': '_'.join(w.upper() for w in ws), 'kebab': '-'.join(ws),
+            'camel': ws[0] + ''.join(caps[1:]), 'pascal': ''.join(caps)}[style]
+
+
+def unsplittable(name):
+    # leading, trailing or doubled separators
+    parts = name.replace('-', '_').split('_')
+    return any(p == '' for p in parts)
+
+
+SPEC("pane.field", "rename_field.bounded", bounded=True,
+     requires=lambda field, style: is_snake_name(field) and not is_none(style),
+     ensures=[(lambda field, style, result: result == canonical(field, style), ["C20"], "canonical"),
+              (lambda field, style, result: ret("pane.field:rename_field", result, style) == result, ["C20"], "idempotent"),
+              (lambda field, style, result: ret("pane.field:rename_field", result, "snake") == field, ["C20"], "reversible"),
+              (lambda field, style, result: ret("pane.field:rename_field", ret("pane.field:rename_field", result, "pascal"), style) == result,
+               ["C20"], "via-other-style")],
+     no_raise=["C20"],
+     note="bounded: all names of 1-3 words over a 4-word vocabulary x 5 styles")
+
+SPEC("pane.field", "rename_field.refusal", bounded=True,
+     requires=lambda field, style: unsplittable(field) and not is_none(style),
+     returns_iff=(lambda field, style: False, ["C20"]),
+     raises=(lambda field, style, exc: exc_is(exc, ValueError), ["C20"]),
+     note="bounded: names with leading / trailing / doubled separators must be refused with ValueError")
